@@ -12,6 +12,7 @@ fixtures byte for byte) and checked with an independent reader on every run.
 import RichchkModel.Lemmas.PassThrough
 import RichchkModel.Lemmas.CodecLemmas
 import RichchkModel.Lemmas.RichRoundTrip
+import RichchkModel.Lemmas.RebuildLemmas
 namespace Richchk.Props.C02
 open Richchk
 
@@ -62,5 +63,37 @@ theorem c02_uprp_values_kept (cfg : RichCfg) (recs : List (List Nat))
     (h6 : ∀ n, ((cfg.flagsOf "cuwp_unit").decode n).length = 6) :
     encodeUprp cfg (decodeUprp cfg recs) = recs :=
   uprp_rich_roundtrip cfg recs hlen hw howner hvs hvu hfl h6
+
+theorem RLoc.same_refl_indexed (l : RLoc) (h : l.idx.isSome) : RLoc.same l l = true := by
+  unfold RLoc.same
+  cases hi : l.idx with
+  | none => simp [hi] at h
+  | some i => simp
+
+/-- **a location reference keeps its slot**: a trigger argument that was decoded as the location
+stored at slot `v` is written back as `v`, whatever locations the save adds (the rebuilt list
+extends the existing one) -/
+theorem c02_location_reference_keeps_slot {cfg : RichCfg} {secs : List RSection} {order : Option (List Nat)}
+    {locs : List RLoc} {ids : List (Nat × Nat)} (h : rebuildMrgn cfg secs order = .ok (locs, ids))
+    (ctx : EncCtx) (hctx : ctx.locs = locs) (l : RLoc) (v : Nat) (hv : l.idx = some v)
+    (hmem : ∀ table, secs.filter (isSectionNamed nMRGN) = [.mrgn table] → l ∈ table) :
+    locId ctx l = some v := by
+  obtain ⟨table, hf, _⟩ := rebuildMrgn_keeps_slots h
+  have hl : l ∈ table := hmem table hf
+  have hpre : table <+: locs := by
+    unfold rebuildMrgn at h
+    rw [hf] at h
+    simp only at h
+    split at h
+    · cases h
+    · split at h
+      · cases h
+      · simp at h; rw [← h.1]; exact List.prefix_append _ _
+  have hin : l ∈ ctx.locs := by rw [hctx]; exact hpre.subset hl
+  unfold locId
+  simp only [hv]
+  have : ctx.locs.any (fun t => RLoc.same t l) = true :=
+    List.any_eq_true.mpr ⟨l, hin, RLoc.same_refl_indexed l (by simp [hv])⟩
+  simp [this]
 
 end Richchk.Props.C02
